@@ -21,7 +21,7 @@ Print Assumptions C14_fingerprint_a_exact.
    without directory_split) *)
 Theorem C14_key_determines_fingerprint : forall (H : fpr -> name) c q1 q2,
   (forall f g, H f = H g -> f = g) ->
-  key_of H c q1 = key_of H c q2 -> fingerprint (method_b c) q1 = fingerprint (method_b c) q2.
+  key_of H c q1 = key_of H c q2 -> fingerprint_c c q1 = fingerprint_c c q2.
 Proof. exact key_of_inj. Qed.
 Print Assumptions C14_key_determines_fingerprint.
 
@@ -68,6 +68,26 @@ Theorem C14_fingerprint_b_refuted_cost :
   total_flops b2_x [] b2_t = 21%Z /\ total_flops b2_y [] b2_t = 16%Z.
 Proof. exact fp_b_sizes_by_label. Qed.
 Print Assumptions C14_fingerprint_b_refuted_cost.
+
+(* the repaired hash_contraction_b (proposed_fixes/C14_hash-b-collision.patch): both witnesses are
+   separated and equal fingerprints mean equally many tensors (a stored path is complete for both);
+   PARTIAL: full soundness of the repaired 'b' (cost invariance under a size-preserving relabelling)
+   is not proved here -- it is checked by the oracle on every shared entry *)
+Theorem C14_fingerprint_b2_separates_witnesses : fp_b2 b1_x <> fp_b2 b1_y /\ fp_b2 b2_x <> fp_b2 b2_y.
+Proof. exact fp_b2_separates_witnesses. Qed.
+Print Assumptions C14_fingerprint_b2_separates_witnesses.
+
+Theorem C14_fingerprint_b2_tensor_count_partial : forall n1 n2, fp_b2 n1 = fp_b2 n2 ->
+  NN n1 = NN n2 /\ forall p, path_to_tree (NN n1) p = path_to_tree (NN n2) p.
+Proof. exact fp_b2_tensor_count. Qed.
+Print Assumptions C14_fingerprint_b2_tensor_count_partial.
+
+(* what remains of the finding (hash-b-relabel-sliced): sliced indices are stored by LABEL *)
+Theorem C14_fingerprint_b_relabel_sliced_refuted :
+  fp_b b3_x = fp_b b3_y /\ fp_b2 b3_x = fp_b2 b3_y /\
+  reconstruct b3_x (mkCon [(0,1)] 0%Z [1]) <> None /\ reconstruct b3_y (mkCon [(0,1)] 0%Z [1]) = None.
+Proof. exact fp_b_relabel_sliced. Qed.
+Print Assumptions C14_fingerprint_b_relabel_sliced_refuted.
 
 (* ---- the cache state machine -------------------------------------------------------- *)
 (* _maybe_run_optimizer implements `spec_step` on the store's abstraction *)
@@ -277,17 +297,17 @@ Example C14_example_history :
   (* same fingerprint, same key, for the permuted query *)
   fp_a ex_q = fp_a ex_q' /\
   (* improved: search, search again (better: replaces), then a fresh process hits from disk *)
-  let c := mkCfg false false OvImproved false in
+  let c := mkCfg false false OvImproved false false in
   let '(rs, (d, ns)) := run_queries ex_H ex_ops ex_orc c (mkDD [] true fs0, 0) [ex_q; ex_q'] in
   rs = [Ok (true, ex_c1); Ok (true, ex_c2)] /\ ns = 2 /\
-  fst (maybe_run ex_H ex_ops ex_orc (mkCfg false false OvFalse true) (fresh d, ns) ex_q) = Ok (false, ex_c2) /\
+  fst (maybe_run ex_H ex_ops ex_orc (mkCfg false false OvFalse true false) (fresh d, ns) ex_q) = Ok (false, ex_c2) /\
   hit_view ex_q' ex_c2 = Some ([[0;1;2]; [1;2]], (12%Z, (5%Z, 3%Z))).
 Proof. vm_compute. repeat split; reflexivity. Qed.
 
 Example C14_example_history_fixed_diskdict :
   let ops := ops_fix (tab_encode ex_tab) (tab_decode ex_tab) 3 in
-  let c := mkCfg false true OvImproved false in
+  let c := mkCfg false true OvImproved false false in
   let '(rs, (d, ns)) := run_queries ex_H ops ex_orc c (mkDD [] true fs0, 0) [ex_q; ex_q'] in
   rs = [Ok (true, ex_c1); Ok (true, ex_c2)] /\ ns = 2 /\
-  fst (maybe_run ex_H ops ex_orc (mkCfg false true OvFalse true) (fresh d, ns) ex_q) = Ok (false, ex_c2).
+  fst (maybe_run ex_H ops ex_orc (mkCfg false true OvFalse true false) (fresh d, ns) ex_q) = Ok (false, ex_c2).
 Proof. vm_compute. repeat split; reflexivity. Qed.
